@@ -10,6 +10,10 @@
 import ClarabelProofs.Lemmas.Loop
 import ClarabelProofs.Props.C09
 import ClarabelProofs.Props.C04Full
+import ClarabelProofs.Props.C04NoPanic
+import ClarabelProofs.Lemmas.LoopTimers
+import ClarabelProofs.Lemmas.LoopGuards
+import ClarabelProofs.Lemmas.SolverModelDegenerate
 
 namespace Clarabel.C04
 open Clarabel Clarabel.Loop
@@ -193,6 +197,255 @@ theorem collapse_wf {β : Type} (cones : List (ConeT β)) :
 example : Cones.newCollapsed ([.zero 0, .nonneg 2, .soc 1, .soc 0, .psd 1, .soc 3] : List (ConeT Nat))
     = ([.nonneg 4, .soc 3] : List (ConeT Nat)) := by rfl
 
+
+/-! ## Round 3: the timers (`src/timers/timers.rs`) as a state machine over an abstract clock
+
+Model: `ClarabelModel/Timers.lean`; lemmas: `Lemmas/LoopTimers.lean`.  A clock is any function
+`Nat → Path → Nat`: the reading (ns) the timer at a path obtains in the `n`-th call of a run — every
+timer reads the clock by itself, in `HashMap` order, so nothing is assumed about readings within one
+call.  `co` supplies the readings stored into `start`, `cc` the readings intervals are closed with
+(the real code: `co = cc`).  All theorems hold for EVERY pair of clocks unless a hypothesis says
+otherwise. -/
+section timers
+open Clarabel.Timers
+
+/-- [S] `C04.timers_discipline_no_panic`: a call sequence that keeps the stack discipline (no
+`stop_current` on an empty stack; `balanced`), started on timers whose running timers are exactly
+the ones on the call stack (`Sim`, e.g. fresh or idle timers), never panics — no `unwrap()` on a
+missing key, on an empty stack or on a timer that was not started — and the values `total_time()`
+returns are those of the root-interval accounting `accRun`: every closed interval of a root timer is
+counted exactly once, the windows between `suspend` and `resume` (printing) are not counted, nested
+timers contribute nothing. -/
+theorem timers_discipline_no_panic (co cc : Clock) (ops : List Op) (n : Nat) {s : Timers.State} {a : Acc}
+    (h : Sim s a) (hb : balanced s.stack.length ops = true) :
+    ∃ s', Timers.run co cc n ops s = .ok (s', (accRun co cc n ops a).2) ∧ Sim s' (accRun co cc n ops a).1
+      ∧ s'.stack.length = depthAfter s.stack.length ops :=
+  run_sim co cc ops n h hb
+
+/-- non-vacuity: fresh timers satisfy `Sim`, and the solver's own sequences are `balanced` -/
+example : Sim Timers.State.empty ⟨totalTime Timers.State.empty, none, 0⟩ := sim_idle good_empty rfl
+example (passes : List PassShape) (x : Bool) : balanced 0 (solveRest passes x) = true :=
+  (solveRest_balanced passes x 0).1
+example : balanced 0 newOps = true := by rfl
+
+/-- [S] `C04.timers_no_panic`: the timer calls of `DefaultSolver::new` followed by those of any
+number of `solve()` calls — whatever the passes of each solve decide (`PassShape`: done / failed
+checkpoint / scaling failure / KKT failure), with or without the final status line, for every clock
+— never panic, and leave the timers idle (empty stack, nothing running: `Good` with `stack = []`). -/
+theorem timers_no_panic (co cc : Clock) (solves : List (List PassShape × Bool)) :
+    ∃ s' reads, Timers.run co cc 0 (newOps ++ solves.flatMap fun p => solveOps p.1 p.2) Timers.State.empty
+        = .ok (s', reads) ∧ Good s' ∧ s'.stack = [] :=
+  new_then_solves_run co cc solves
+
+/-- [S] `C04.timers_solve_accounting`: one `solve()` on idle timers.  No panic; idle afterwards; the
+values of `total_time()` that `info.update` reads (one per pass, this is `info.solve_time` as
+`check_termination` sees it) and that `info.finalize` reads are exactly the root-interval accounting
+of the calls after `reset_timer("solve")`, started at
+`B = total_time() − elapsed("solve")` (the setup time, plus the post-processing time of earlier
+solves on the same solver — "post-process" is a root timer that `info.reset` does not reset). -/
+theorem timers_solve_accounting {s : Timers.State} (h : Good s) (hs : s.stack = []) (co cc : Clock) (n : Nat)
+    (passes : List PassShape) (extraLine : Bool) :
+    ∃ s', Timers.run co cc n (solveOps passes extraLine) s
+        = .ok (s', (accRun co cc (n + 3) (solveRest passes extraLine)
+                      ⟨totalTime s - elapsedAt s ["solve"], none, 0⟩).2)
+      ∧ Good s' ∧ s'.stack = []
+      ∧ totalTime s' = (accRun co cc (n + 3) (solveRest passes extraLine)
+                      ⟨totalTime s - elapsedAt s ["solve"], none, 0⟩).1.total :=
+  solve_run h hs co cc n passes extraLine
+
+/-- non-vacuity: the timers `new` leaves behind are idle -/
+example (co cc : Clock) : ∃ s', Timers.run co cc 0 newOps Timers.State.empty = .ok (s', []) ∧ Good s' ∧ s'.stack = [] :=
+  new_run co cc 0
+
+/-- [S] `C04.timers_solve_time_monotone`: the `solve_time` values a solve sees are non-decreasing
+from pass to pass, none is below `B`, none exceeds the final `solve_time` — for every clock (a clock
+that goes back only makes an interval count as zero, as `Instant::elapsed` does). -/
+theorem timers_solve_time_monotone (co cc : Clock) (n : Nat) (passes : List PassShape) (extraLine : Bool)
+    (B : Nat) :
+    let r := accRun co cc n (solveRest passes extraLine) ⟨B, none, 0⟩
+    r.2.Pairwise (· ≤ ·) ∧ (∀ t ∈ r.2, B ≤ t ∧ t ≤ r.1.total) :=
+  let h := accRun_mono co cc (solveRest passes extraLine) n ⟨B, none, 0⟩
+  ⟨h.2.2, h.2.1⟩
+
+/-- [S] `C04.timers_pass_accounting` (each closed interval exactly once, printing excluded): in the
+loop ("solve" is the running root timer, its open interval began at `t0`), a pass whose calls are
+numbered from `n` reads the total `T`, then adds exactly the interval `[t0, suspend]` closed by the
+`notimeit!` around `print_status` (call `n + 1`), reopens at the `resume` (call `n + 2`), and adds
+nothing else: the timed stages `scale cones` / `kkt update` / `kkt solve` are nested timers.  Only
+the extra status line of a failed insufficient-progress checkpoint adds one more interval
+(`[resume, second suspend]`). -/
+theorem timers_pass_accounting (co cc : Clock) (n : Nat) (p : PassShape) (T t0 : Nat) :
+    accRun co cc n (passOps p) ⟨T, some ("solve", t0), 2⟩ =
+      (⟨T + (cc (n + 1) ["solve"] - t0)
+          + (if p.done && p.failLine then cc (n + 3) ["solve"] - co (n + 2) ["solve"] else 0),
+        some ("solve", if p.done && p.failLine then co (n + 4) ["solve"] else co (n + 2) ["solve"]), 2⟩,
+       [T]) :=
+  accRun_passOps co cc n p T t0
+
+/-- [S] `C04.timers_interval_exact` (hypothesis: the clock does not go back, `Mono`): the reading in
+`start` of the running root timer was taken in an earlier call, so the interval a `suspend` adds is
+the true difference `now − start`; the truncated subtraction of the accounting never truncates. -/
+theorem timers_interval_exact (cl : Clock) (hm : Mono cl) (n : Nat) (a : Acc) (h : RootEarlier cl n a)
+    (k : String) (t : Nat) (hk : a.root = some (k, t)) :
+    t ≤ cl n [k] ∧ (accStep (cl n) (cl n) .suspend a).total + t = a.total + cl n [k] :=
+  acc_interval_exact cl hm n a h k t hk
+
+/-- `RootEarlier` is an invariant of the accounting (and holds trivially when no root timer runs) -/
+example (cl : Clock) (n : Nat) (op : Op) (a : Acc) (h : RootEarlier cl n a) :
+    RootEarlier cl (n + 1) (accStep (cl n) (cl n) op a) := rootEarlier_step cl n op a h
+example (cl : Clock) (n T : Nat) : RootEarlier cl n ⟨T, none, 0⟩ := fun _ _ h => nomatch h
+/-- a monotone clock exists -/
+example : Mono (fun n _ => n) := fun _ _ _ _ h => Nat.le_of_lt h
+
+end timers
+
+
+/-- [S] `C04.timers_driver_faithful`: the executable driver of the timer model (`runUntil`, which
+tabulates `cell` after every call to stay linear-time) returns, on well-formed timers, exactly what
+`Timers.run` returns, and reports a panic exactly when `run` does — the correspondence channels
+`timers.script` / `timers.solve` therefore compare the code with the model the theorems are about. -/
+theorem timers_driver_faithful (co cc : Timers.Clock) (ops : List Timers.Op) (n : Nat) (s : Timers.State)
+    (rs : List Nat) (h : Timers.WF s) :
+    match Timers.run co cc n ops s with
+    | .ok r => Timers.runUntil co cc n ops s rs = (none, r.1, rs ++ r.2)
+    | .error _ => ∃ k s'' rs', Timers.runUntil co cc n ops s rs = (some k, s'', rs') :=
+  Timers.runUntil_spec co cc ops n s rs h
+
+/-- fresh timers are well-formed -/
+example : Timers.WF Timers.State.empty := Timers.wf_empty
+
+section degenerate
+open Clarabel.Solver.Example
+attribute [local instance] intFloatLike
+
+/-- [S] `C04.degenerate_shapes_return`: on the composed model of `DefaultSolver::new` + `solve()`
+(kernel-evaluated at `Int`), every degenerate shape of the property's quantifier is accepted by
+construction and solved to a terminal status without `.panic`: no constraints with an empty cone
+list; only cones of dimension zero; empty cones between real ones together with a
+`SecondOrderConeT(1)` singleton; duplicate inequality rows; duplicate equality rows; a variable with
+a zero column in `A` and `P`; no variables at all (`n = 0`), also with `max_iter = 0`.
+(`(passes, status, iterations)` of each run.) -/
+theorem degenerate_shapes_return :
+    summary (runOn P1 #[1] A0 #[] [] 3 #[0]) = some (4, .maxIterations, 3)
+    ∧ summary (runOn P1 #[1] A0 #[] [.zero 0, .nonneg 0, .soc 0] 3 #[0]) = some (4, .maxIterations, 3)
+    ∧ summary (runOn P1 #[1] A2 #[1, 1] [.zero 0, .nonneg 1, .soc 0, .soc 1, .nonneg 0] 3 #[0, 1, 2])
+        = some (2, .solved, 1)
+    ∧ summary (runOn P1 #[1] A2 #[1, 1] [.nonneg 2] 3 #[0, 1, 2]) = some (2, .solved, 1)
+    ∧ summary (runOn P1 #[1] A2 #[1, 1] [.zero 2] 3 #[0, 1, 2]) = some (4, .maxIterations, 3)
+    ∧ summary (runOn P2z #[1, 0] A12z #[1] [.nonneg 1] 3 #[0, 1, 2]) = some (1, .solved, 0)
+    ∧ summary (runOn P0 #[] A10 #[1] [.nonneg 1] 3 #[0]) = some (2, .solved, 1)
+    ∧ summary (runOn P0 #[] A10 #[1] [.nonneg 1] 0 #[0]) = some (1, .maxIterations, 0) :=
+  ⟨deg_m0, deg_m0_empty_cones, deg_dim0_soc1, deg_duplicate_rows_nn, deg_duplicate_rows_eq,
+   deg_zero_column, deg_n0, deg_n0_maxiter0⟩
+
+end degenerate
+
+/-- the `info` block `check_termination` looks at in a pass: `save_scalars` and `info.update`
+applied to the oracle's numbers (`Loop.top` before the status is settled) -/
+def topInfo (o : PassOracle α) (st : State α) : Info α :=
+  { (st.info.saveScalars o.mu st.alpha st.sigma st.iter) with
+    costPrimal := o.costPrimal, costDual := o.costDual, resPrimal := o.resPrimal,
+    resDual := o.resDual, resPrimalInf := o.resPrimalInf, resDualInf := o.resDualInf,
+    gapAbs := o.gapAbs, gapRel := o.gapRel, ktratio := o.ktratio, solveTime := o.solveTime }
+
+/-- [S] `C04.maxtime_from_timers` ("once `time_limit` is exceeded the next `check_termination`
+returns `MaxTime` unless another verdict is reached first"): let `T` be the value `total_time()` of
+the timers at the `read` of a pass (by `timers_solve_accounting` / `timers_pass_accounting`: `B` plus
+every interval of "solve" closed so far — i.e. the wall clock at the previous pass's status line,
+minus printing), and `conv` the conversion `Duration::as_secs_f64` (any function).  If `info.update`
+stored `conv T`, this exceeds `time_limit`, no verdict is reached from the numbers and the iteration
+budget is not used up, then this pass's `check_termination` settles on `MaxTime` and the loop is left
+in this very pass without a further KKT update or step. -/
+theorem maxtime_from_timers (cfg : Config α) (o : PassOracle α) (st : State α) (conv : Nat → α) (T : Nat)
+    (hT : o.solveTime = conv T) (hlim : cfg.timeLimit < conv T)
+    (hv : verdict (topInfo o st) ⟨o.dotBz, o.dotQx⟩ cfg st.iter = .Unsolved)
+    (hi : cfg.maxIter ≠ st.iter) :
+    ∃ st', pass cfg o st = .brk st' ∧ st'.info.status = .MaxTime ∧ st'.iter = st.iter
+      ∧ st'.vars = st.vars := by
+  apply maxtime cfg o st
+  show checkTermination (topInfo o st) ⟨o.dotBz, o.dotQx⟩ cfg st.iter = .MaxTime
+  apply maxtime_check _ _ _ _ hv hi
+  show cfg.timeLimit < o.solveTime
+  rw [hT]; exact hlim
+
+/-! ## Round 3: the construction guards of `DefaultSolver::new`
+
+Model: `ClarabelModel/NewGuards.lean`; lemmas: `Lemmas/LoopGuards.lean`. -/
+section guards
+open Clarabel.NewGuards
+variable {β : Type} [Add β] [Sub β] [Mul β] [Div β] [OfNat β 0] [OfNat β 1] [OfScientific β]
+  [LT β] [DecidableLT β] [FloatLike β]
+
+/-- [S] `C04.new_guards_ok_iff` ("inconsistent dimensions are rejected at construction"):
+`DefaultSolver::new` gets past every documented panic exactly when the five dimension equalities
+hold and every generalized power cone that owns rows passes the two assertions of
+`GenPowerConeData::new` (all exponents positive, `|1 − Σα| < ε·len/2`).  Nothing else is checked:
+in particular `PowerConeT(α)` is accepted for every `α` (no assertion in `PowerCone::new`), cones of
+dimension zero and `SecondOrderConeT(0|1)` are accepted (they are removed / turned into nonnegative
+cones by `new_collapsed`), `n = 0` and `m = 0` are accepted. -/
+theorem new_guards_ok_iff (Pm Pn qlen Am An blen : Nat) (cones : List (ConeT β)) :
+    newGuards Pm Pn qlen Am An blen cones = .ok () ↔
+      (blen = Am ∧ (cones.map ConeT.nvars).foldl (· + ·) 0 = blen ∧ qlen = An ∧ qlen = Pn ∧ Pm = Pn)
+      ∧ ∀ al d, ConeT.genpow al d ∈ cones → al.size + d ≠ 0 → ∃ ψ, GenPow.new al = .ok ψ :=
+  newGuards_ok_iff Pm Pn qlen Am An blen cones
+
+/-- [S] `C04.new_guards_error_list`: the exact list of construction panics and their order: the
+first violated dimension equality (A/b, cones, A/q, P/q, P square), otherwise — the dimensions being
+consistent — one of the two assertions of `GenPowerConeData::new`, for the first cone of the collapsed
+list that violates one.  The `assert!(dim >= 2)` of `SecondOrderCone::new` is not reachable. -/
+theorem new_guards_error_list (Pm Pn qlen Am An blen : Nat) (cones : List (ConeT β)) (e : ModelErr)
+    (h : newGuards Pm Pn qlen Am An blen cones = .error e) :
+    Loop.checkDimensions Pm Pn qlen Am An blen (cones.map ConeT.nvars) = .error e
+    ∨ (Loop.checkDimensions Pm Pn qlen Am An blen (cones.map ConeT.nvars) = .ok ()
+        ∧ (e = .panic "assert: powers > 0" ∨ e = .panic "assert: powers sum to 1")
+        ∧ ∃ pre al d post, Cones.newCollapsed cones = pre ++ ConeT.genpow al d :: post
+            ∧ (∀ c ∈ pre, coneGuard c = .ok ()) ∧ GenPow.new al = .error e
+            ∧ ConeT.genpow al d ∈ cones ∧ al.size + d ≠ 0) :=
+  newGuards_error Pm Pn qlen Am An blen cones e h
+
+/-- [S] the five dimension panics, each with the exact condition under which it is the one raised -/
+theorem dimension_guard_error_list (Pm Pn qlen Am An blen : Nat) (ns : List Nat) (e : ModelErr)
+    (h : checkDimensions Pm Pn qlen Am An blen ns = .error e) :
+    (e = .panic "assert:A-and-b-incompatible-dimensions" ∧ blen ≠ Am)
+    ∨ (e = .panic "assert:constraint-dimensions-inconsistent-with-size-of-cones" ∧ blen = Am
+        ∧ ns.foldl (· + ·) 0 ≠ blen)
+    ∨ (e = .panic "assert:A-and-q-incompatible-dimensions" ∧ blen = Am ∧ ns.foldl (· + ·) 0 = blen
+        ∧ qlen ≠ An)
+    ∨ (e = .panic "assert:P-and-q-incompatible-dimensions" ∧ blen = Am ∧ ns.foldl (· + ·) 0 = blen
+        ∧ qlen = An ∧ qlen ≠ Pn)
+    ∨ (e = .panic "assert:P-not-square" ∧ blen = Am ∧ ns.foldl (· + ·) 0 = blen ∧ qlen = An
+        ∧ qlen = Pn ∧ Pm ≠ Pn) :=
+  checkDimensions_error Pm Pn qlen Am An blen ns e h
+
+/-- [S] presolve neither removes nor creates a generalized power cone (so the cone guards can be
+stated on the collapsed list, before presolve) -/
+theorem presolve_keeps_genpow (al : Array β) (d : Nat) (cs : List (ConeT β)) (keep : List Bool) :
+    ConeT.genpow al d ∈ Presolve.reduceConesWith keep cs ↔ ConeT.genpow al d ∈ cs :=
+  mem_reduceConesWith_genpow al d cs keep
+
+end guards
+
+section guards_full
+open Clarabel.Solver Clarabel.NewGuards
+variable {β : Type} [Add β] [Sub β] [Mul β] [Div β] [Neg β] [OfNat β 0] [OfNat β 1] [OfNat β 2]
+  [OfNat β 100] [OfNat β 1000] [LT β] [DecidableLT β] [LE β] [DecidableLE β] [BEq β] [FloatLike β]
+
+/-- [S] `C04.new_runs_no_stage_before_guards`: on the composed model of `DefaultSolver::new` (the
+one tied bit for bit to the code), a failing dimension guard IS the result — presolve,
+equilibration, KKT assembly and factorisation are not evaluated — and a solver object exists only
+if the guard passed. -/
+theorem new_runs_no_stage_before_guards (P : Csc β) (q : Array β) (A : Csc β) (b : Array β)
+    (cones : List (ConeT β)) (st : Settings β) (perm : Array Nat) :
+    (∀ e, checkDimensions P.m P.n q.size A.m A.n b.size (cones.map ConeT.nvars) = .error e →
+        Solver.new P q A b cones st perm = .error e)
+    ∧ (∀ S, Solver.new P q A b cones st perm = .ok S →
+        checkDimensions P.m P.n q.size A.m A.n b.size (cones.map ConeT.nvars) = .ok ()
+          ∧ ∃ S0, SolverSt.new P q A b cones st perm = .ok S0 ∧ S.st = S0) :=
+  ⟨fun e h => solverNew_of_checkDimensions_error P q A b cones st perm e h,
+   fun _ h => checkDimensions_of_solverNew h⟩
+
+end guards_full
+
 /-! non-vacuity on a concrete scalar type -/
 namespace Examples
 
@@ -228,6 +481,29 @@ example : checkTermination { info with iterations := 3 } ⟨0, 0⟩ cfg 3 = .Max
 example : checkDimensions 2 2 2 3 2 3 [1, 2] = .ok () := by rfl
 example : checkDimensions 2 2 2 3 2 3 [1, 1] ≠ .ok () := by
   rw [Ne, dimension_guard]; decide
+
+instance : OfScientific Int := ⟨fun m _ _ => m⟩
+section guard_examples
+open Clarabel.NewGuards
+/-- non-vacuity / degenerate shapes, decided by evaluation: no constraints and no cones (`m = 0`),
+no variables (`n = 0`), cones of dimension zero, `SecondOrderConeT(0)` / `(1)`; and the panics -/
+example : newGuards 2 2 2 0 2 0 ([] : List (ConeT Int)) = .ok () := by rfl
+example : newGuards 0 0 0 1 0 1 ([.nonneg 1] : List (ConeT Int)) = .ok () := by rfl
+example : newGuards 0 0 0 0 0 0 ([] : List (ConeT Int)) = .ok () := by rfl
+example : newGuards 1 1 1 1 1 1 ([.zero 0, .soc 0, .psd 0, .soc 1, .nonneg 0] : List (ConeT Int)) = .ok () := by rfl
+example : newGuards 1 1 1 2 1 1 ([.nonneg 1] : List (ConeT Int)) = .error (.panic "assert:A-and-b-incompatible-dimensions") := by rfl
+example : newGuards 1 1 1 2 1 2 ([.nonneg 1] : List (ConeT Int))
+    = .error (.panic "assert:constraint-dimensions-inconsistent-with-size-of-cones") := by rfl
+example : newGuards 1 2 1 1 1 1 ([.nonneg 1] : List (ConeT Int)) = .error (.panic "assert:P-and-q-incompatible-dimensions") := by rfl
+example : newGuards 2 1 1 1 1 1 ([.nonneg 1] : List (ConeT Int)) = .error (.panic "assert:P-not-square") := by rfl
+
+/-- the two generalized-power-cone panics (at `Int`, `ε = 0`: the sum test always fails), reported
+for the first offending cone; a generalized power cone without rows is never constructed -/
+example : newGuards 1 1 1 3 1 3 ([.genpow #[1, 0] 1] : List (ConeT Int)) = .error (.panic "assert: powers > 0") := by rfl
+example : newGuards 1 1 1 5 1 5 ([.nonneg 2, .genpow #[1, 1] 1] : List (ConeT Int))
+    = .error (.panic "assert: powers sum to 1") := by rfl
+example : newGuards 1 1 1 2 1 2 ([.genpow #[] 0, .nonneg 2] : List (ConeT Int)) = .ok () := by rfl
+end guard_examples
 
 end Examples
 
